@@ -931,9 +931,10 @@ class Tensor:
         relationship with the view-tensor since these are measures of "cause and effects"
         associated with varying elements of data (albeit infinitesmaly).
         """
-        if self._base is None or self._base.constant:
+        if self._base is None or self._base.constant or self._constant:
             # a constant base never has a gradient for its views to window onto:
-            # a non-constant view of it reports the gradient it received itself
+            # a non-constant view of it reports the gradient it received itself;
+            # a constant view does not take part in its base's gradient either
             return self._grad
 
         if (
